@@ -190,6 +190,8 @@ impl Edge {
     /// write the edge
     ///
     pub fn write(&self, conn: &Connection) -> std::result::Result<(), rusqlite::Error> {
+        #[cfg(discret_verif)]
+        crate::verif::fault_point("stmt_edge")?;
         let mut insert_stmt = conn.prepare_cached(
             "INSERT OR REPLACE INTO _edge (src, src_entity, label, dest, cdate, verifying_key, signature) 
                             VALUES (?, ?, ?, ?, ?, ?, ?)",
